@@ -39,6 +39,11 @@ spec -> code
         arguments present, missing or replaced), self-closing / block / left open, at top level
         and inside a component body (N=2: 43 902 sources); TLC exports the source, the harness
         calls Template(src).
+  Configurations: every Template(..) compilation of every set (i, ii, iv, v, vi and the random
+  driver) happens once per engine mode of EngineModes (AdversarialInputs.tla): plain and debug
+  (engine.debug on: the engine annotates exceptions with template_debug on their way out of the
+  compilation); channels `probe+debug`, `comp+debug`, `template+debug`.  Same outcome set.
+  Trace_C12 rejects a record whose channels are not TagChannels / TplChannels.
   Time bound: every parser run of every set happens under a CPU-time budget of the worker
   process (ITIMER_PROF; wall time and machine load do not matter) of
   CpuBudgetMs(characters) = 1000 ms + n^2/1000 ms (AdversarialInputs.tla; the unchanged scanners
@@ -91,7 +96,8 @@ HANG_CAP = 6            # hangs after which the rest of an input set is skipped
 RULE = ("every state of TLC's BFS over AppendSym (all strings up to the length bound over the tag and the template "
         "alphabet), every MC_C12M mutant of sampled MC_C02 layouts, every pumped case of MC_C12P (pre . u^k . suf, all "
         "(pre, u, suf) up to the total bound, distinct texts) and every MC_C12T library-tag source (every tag x every word "
-        "sequence up to the bound x form x wrap) is fed to parse_tag / Template under the CPU budget CpuBudgetMs; "
+        "sequence up to the bound x form x wrap) is fed to parse_tag / Template (every compilation once per engine mode: plain, debug) under the CPU budget "
+        "CpuBudgetMs; "
         "non-trivial = at least 2 symbols; distinct by construction (distinct TLC states / distinct texts); random longer "
         "strings, mutants and pumped substrings of deep texts, random pumped inputs, longer library tags, the slowest "
         "inputs of every set and growth measurements validated by Trace_C12, round trips by Trace_C02")
@@ -203,14 +209,33 @@ def outcome(fn: Callable[[], Any], nchars: int = 0) -> str:
     return timed(fn, nchars)[0]
 
 
+ENGINE_MODES = ["plain", "debug"]      # EngineModes of AdversarialInputs.tla
+
+
+def compile_in(mode: str, src: str) -> None:
+    """Template(src) with the default engine in the given mode (debug: the engine annotates
+    exceptions with template_debug on their way out of the compilation)."""
+    from django.template import Template, engines
+    eng = engines["django"].engine
+    saved = eng.debug
+    eng.debug = mode == "debug"
+    try:
+        Template(src)
+    finally:
+        eng.debug = saved
+
+
 def channels(kind: str, text: str) -> List[Tuple[str, Callable[[], Any]]]:
-    from django.template import Template
+    """TplChannels / TagChannels of the specification: every compilation once per engine mode."""
     from django_components.util.tag_parser import parse_tag
+
+    def per_mode(name: str, src: str):
+        return [(name if m == "plain" else name + "+" + m, lambda m=m: compile_in(m, src)) for m in ENGINE_MODES]
     if kind == "tpl":
-        return [("template", lambda: Template(text))]
-    return [("parse_tag", lambda: parse_tag(text, None)),
-            ("probe", lambda: Template("{% " + c02.PROBE_TAG + " " + text + " %}{% end" + c02.PROBE_TAG + " %}")),
-            ("comp", lambda: Template("{% component '" + COMP + "' " + text + " %}{% endcomponent %}"))]
+        return per_mode("template", text)
+    return ([("parse_tag", lambda: parse_tag(text, None))]
+            + per_mode("probe", "{% " + c02.PROBE_TAG + " " + text + " %}{% end" + c02.PROBE_TAG + " %}")
+            + per_mode("comp", "{% component '" + COMP + "' " + text + " %}{% endcomponent %}"))
 
 
 def outcomes(kind: str, text: str) -> List[Tuple[str, str]]:
@@ -223,7 +248,7 @@ TRANS_WORD = re.compile(r"""(?:^|\s)_\(["']""")
 def finding_key(kind: str, channel: str, text: str, out: str) -> Optional[str]:
     """Named deviation = shape of the input + the outcome the deviation predicts."""
     if out == "exc:StopIteration" and TRANS_WORD.search(text):
-        if channel == "comp" or (kind == "tpl" and "{% component " in text):
+        if channel.split("+")[0] == "comp" or (kind == "tpl" and "{% component " in text):
             # Token.split_contents() of the component tag_fn: a word starting with _(" or _('
             # that does not end with ") / ')
             return "component-tag:unfinished-translation-word:StopIteration"
@@ -236,6 +261,9 @@ def _init_worker(budget: Optional[float] = None, limit_memory: bool = True) -> N
     _E["budget"] = budget
     signal.signal(signal.SIGPROF, _alarm)
     if limit_memory:        # only in forked workers: the main process still has to start JVMs
+        import gc
+        gc.freeze()         # the inherited input lists (10^5..10^6 objects) are not garbage: keep the collector
+        #                     off them - every failed compilation leaves a reference cycle behind
         try:                # MEM_LIMIT on top of what the worker inherits from the parent (its input lists)
             with open("/proc/self/statm") as f:
                 have = int(f.read().split()[0]) * os.sysconf("SC_PAGE_SIZE")
@@ -845,11 +873,13 @@ def trace_validate(chk: Check, recs: List[Dict[str, Any]], what: str, w: Path) -
         rec = recs[tid - 1]
         if why == "bad:input_space":
             raise MachineryError(f"driver produced an input outside the modelled space: {rec}")
+        if why == "bad:channels":
+            raise MachineryError(f"harness did not observe the channels / engine modes the specification names: {rec}")
         if rec["kind"] == "grow":
             continue                      # already reported by growth() from the same numbers
         text = "".join(rec["syms"])
         chs = rec["chan"]
-        ik = "tpl" if chs == ["template"] else "tag"
+        ik = "tpl" if chs[0] == "template" else "tag"
         reported = False
         for ch, out, ms in zip(chs, rec["out"], rec.get("cpu") or [0] * len(chs)):
             if out not in ("ok", "tse") or (why == "bad:time" and ms > budget_ms(len(text))):
@@ -1109,7 +1139,7 @@ def core(chk: Check, tier: str, procs: int, maxlen: int, n_bases: int, grow_n: i
 def run(tier: str) -> int:
     chk = Check(PID, tier, "exploration")
     if tier == "quick":
-        core(chk, tier, procs=8, maxlen=4, n_bases=120, grow_n=8, n_rand=(3000, 1500, 600, 150, 900, 600),
+        core(chk, tier, procs=12, maxlen=4, n_bases=120, grow_n=8, n_rand=(3000, 1500, 600, 150, 900, 600),
              c02_tier="selftest", rt_k=3, pump=(3, 3, 1, [48]), lib_words=2)
     else:
         core(chk, tier, procs=8, maxlen=5, n_bases=800, grow_n=32, n_rand=(30000, 15000, 6000, 1500, 9000, 6000),
@@ -1300,8 +1330,23 @@ def selftest(tier: str) -> int:
         token.contents.split()[1]
         return orig_slot_tag(parser, token)
 
+    import django.template.base as dtb
+    orig_compile = dtb.Template.compile_nodelist
+
+    def tokenizer_errors_annotated_like_parser_errors(self):
+        # the debug-mode handler of compile_nodelist (e.template_debug = get_exception_info(e, e.token))
+        # also covering the library's own tokenizer, whose exceptions carry no `token`
+        try:
+            return orig_compile(self)
+        except Exception as e:
+            if self.engine.debug and not hasattr(e, "template_debug"):
+                e.template_debug = self.get_exception_info(e, e.token)
+            raise
+
     probes = [
         ("value-error-instead-of-syntax-error", many((tp.TagValuePart, "__post_init__", post_init_value_error))),
+        ("debug-engine-annotates-tokenizer-errors", many((dtb.Template, "compile_nodelist",
+                                                          tokenizer_errors_annotated_like_parser_errors))),
         ("whole-string-regex-backtracks-on-unterminated-string", many((tpar, "_detailed_tag_parser", whole_string_regex))),
         ("formatter-indexes-missing-name-kwarg", many((tfm.ComponentFormatter, "parse", formatter_indexes_name_kwarg))),
         ("slot-tag-peeks-at-missing-first-word", many((lib_tags, "slot", slot_peeks_first_word))),
